@@ -142,7 +142,7 @@ func verifC09RelayCandidates() {
 	onCloseCalls, closeConnCalls := 0, 0
 	lateDealloc := false
 	ep := relayEndpoint{network: udp, address: net.IPv4(70, 0, 0, 1).To4(), port: 7000, relAddr: "10.0.0.1", relPort: 5, protocol: udp, conn: relayConn,
-		onClose:   func() error { onCloseCalls++; return nil },
+		onClose: func() error { onCloseCalls++; return nil },
 		closeConn: func() {
 			closeConnCalls++
 			if onCloseCalls > 0 {
